@@ -150,6 +150,24 @@ ADDED = {
  "C19": ("; wall readings around every offset change of every zone (1975 / 2011 / 2021) bound to that zone", ""),
  "C20": ("; typed declarations (int 0, float 0.0, boolean false, ...) as named arguments through a schema", ""),
 }
+ADDED6 = {   # round 6
+ "C01": "; accepted schema variants with one number at an integer boundary (max int64, 2^62, 2^31)",
+ "C02": "; Eval.tla function kind 'sig': a user function with the signature (string, int64, float64, bool) registered by an Extension, family 'sig' (every argument present / absent / empty)",
+ "C03": "; every number of every corpus schema at the integer boundaries, exhaustively",
+ "C09": "; the built-in format readers driven on plain io.Readers (byte source substituted through CustomFileFormats), XML with a declared single-byte encoding",
+ "C10": "; record pool with computed xpaths (nested / flat function calls, fields, arrays, templates), every baseline on a Schema object of its own",
+ "C11": "; MC_Nav documents with adjacent text nodes (CDATA boundaries), CDATA runs in the random documents",
+ "C12": "; random declaration hierarchies (csv2 / fixedlength2 / edi) under the pool tracker and Trace_IDRAudit; Ingester.tla protocol validation of the Read / Release calls on the real readers",
+ "C13": "; B1 replay of the MC_Eval cases (collide / ietwin / dyn / sig) on the real Transform with every cache off and every cache on",
+ "C14": "; tenant Extensions binding one function name differently; goldens from single-item processes",
+ "C15": "; items that build an Extension of their own when they first run; single-item processes for the items using re-bindable functions",
+ "C16": "; Ctx kinds fresh / served an earlier transform / caller-set CtxAwareErr",
+ "C17": "; attribute filters whose literal contains the other quote character",
+ "C18": "; long multi-line inputs (several buffer refills) under both code pages and four delivery sizes",
+ "C20": "; what a call sees through a schema (no _node for the plain variant, an argument named _node)",
+}
+for _p, _t in ADDED6.items():
+    CHECKS[_p]["technique"] += _t
 for _p, (_t, _x) in ADDED.items():
     CHECKS[_p]["technique"] += _t
     CHECKS[_p]["text"] += _x
